@@ -32,10 +32,14 @@ pub enum Obj {
     Tls(usize),
     /// index into the pool of `Lazy` statics
     Lazy(usize),
+    /// a hand-written waker slot (async layer, fut.rs)
+    WSlot(crate::fut::WSlot),
     /// parking_lot replacements (src/pl.rs)
     Pl(crate::pl::PlObj),
     /// index into the pool of statics declared through the lazy_static wrapper's macro
     WLazy(usize),
+    /// a tokio-wrapper object (src/tokio.rs); leaked at the end of the execution
+    Tokio(std::mem::ManuallyDrop<crate::tokio::TObj>),
 }
 
 
@@ -140,6 +144,8 @@ pub struct Ctx {
     pub objs: Vec<Obj>,
     pub handles: std::sync::Mutex<Vec<Option<JoinHandle<()>>>>,
     pub threads: std::sync::Mutex<Vec<Option<Thread>>>,
+    /// async layer: join / abort handles of spawned futures, the table of `Acquire` futures
+    pub fut: crate::fut::FutCtx,
 }
 
 pub(crate) enum Guard {
@@ -179,12 +185,47 @@ impl Handles {
 }
 
 // NOTE the field order is the drop order when a panic unwinds through `run_task`
-struct TaskSt {
-    k: usize,
-    last: String,
+pub struct TaskSt {
+    pub(crate) k: usize,
+    pub(crate) last: String,
     guards: Vec<Guard>,
     tx: Vec<Option<Tx>>,
     rx: Vec<Option<Receiver<u64>>>,
+}
+
+impl TaskSt {
+    pub(crate) fn new(k: usize, hs: Handles) -> Self {
+        TaskSt {
+            k,
+            last: String::new(),
+            guards: Vec::new(),
+            tx: hs.tx,
+            rx: hs.rx,
+        }
+    }
+
+    /// the end of a body that ran to completion (same as the tail of `run_task`)
+    pub(crate) fn finish(&mut self) {
+        // guards are dropped in reverse order of acquisition, as Rust would
+        while let Some(g) = self.guards.pop() {
+            let oi = match &g {
+                Guard::M(i, _) | Guard::R(i, _) | Guard::W(i, _) | Guard::Pl(i, _) => *i,
+            };
+            drop(g);
+            // make the implicit unlock visible to the monitors
+            log(format!("O {} {} drop {}", me(), self.k, oi));
+        }
+        // then the remaining channel endpoints: per channel in declaration order, sender then receiver
+        for i in 0..self.tx.len() {
+            drop(self.tx[i].take());
+            drop(self.rx[i].take());
+        }
+    }
+}
+
+/// remember which body the current task runs (see `TID_K`)
+pub(crate) fn note_body(k: usize) {
+    lock_std(&TID_K).push((me(), k));
 }
 
 // ---------------------------------------------------------------- thread-locals and lazy statics
@@ -407,6 +448,7 @@ pub fn make_ctx(prog: Arc<Program>) -> (Arc<Ss<Ctx>>, Handles) {
                 assert!(tls_cfg.len() <= TLS_POOL, "vh: at most {TLS_POOL} tls objects");
                 Obj::Tls(tls_cfg.len() - 1)
             }
+            "wslot" => Obj::WSlot(crate::fut::WSlot::new()),
             "lazy" => {
                 lazy_names.push(o.name.clone());
                 assert!(lazy_names.len() <= LAZY_POOL, "vh: at most {LAZY_POOL} lazy objects");
@@ -415,6 +457,7 @@ pub fn make_ctx(prog: Arc<Program>) -> (Arc<Ss<Ctx>>, Handles) {
             "plmutex" => Obj::Pl(crate::pl::new_mutex(a0.parse().unwrap_or(0))),
             "plrwlock" => Obj::Pl(crate::pl::new_rwlock(a0.parse().unwrap_or(0))),
             "wlazy" => Obj::WLazy(crate::pl::wlazy_register(&o.name)),
+            k if crate::tokio::is_kind(k) => Obj::Tokio(std::mem::ManuallyDrop::new(crate::tokio::make(o))),
             k => panic!("vh: unknown object kind {k}"),
         });
     }
@@ -428,6 +471,7 @@ pub fn make_ctx(prog: Arc<Program>) -> (Arc<Ss<Ctx>>, Handles) {
         objs,
         handles: std::sync::Mutex::new((0..n).map(|_| None).collect()),
         threads: std::sync::Mutex::new((0..n).map(|_| None).collect()),
+        fut: crate::fut::FutCtx::new(n),
     }));
     // destructors need the object table after the last task closure has released it
     *lock_std(&CUR_CTX) = Some(ctx.clone());
@@ -446,7 +490,7 @@ fn obj<'a>(ctx: &'a Ctx, name: &str) -> (usize, &'a Obj) {
     (i, &ctx.objs[i])
 }
 
-fn log_op(prog: &Program, st: &mut TaskSt, pc: usize, res: String) {
+pub(crate) fn log_op(prog: &Program, st: &mut TaskSt, pc: usize, res: String) {
     log(format!("O {} {} {} {}", me(), st.k, pc, res));
     if prog.clocks {
         log(format!("C {} {} {}", me(), pc, clock_str()));
@@ -466,20 +510,7 @@ pub fn run_task(ctx: Arc<Ss<Ctx>>, k: usize, hs: Handles) {
         rx: hs.rx,
     };
     run_ops(&ctx, &mut st, ops, 0, None);
-    // guards are dropped in reverse order of acquisition, as Rust would
-    while let Some(g) = st.guards.pop() {
-        let oi = match &g {
-            Guard::M(i, _) | Guard::R(i, _) | Guard::W(i, _) | Guard::Pl(i, _) => *i,
-        };
-        drop(g);
-        // make the implicit unlock visible to the monitors
-        log(format!("O {} {} drop {}", me(), k, oi));
-    }
-    // then the remaining channel endpoints: per channel in declaration order, sender then receiver
-    for i in 0..st.tx.len() {
-        drop(st.tx[i].take());
-        drop(st.rx[i].take());
-    }
+    st.finish();
     log(format!("O {} {} end", me(), k));
 }
 
@@ -539,7 +570,7 @@ fn ops_use(ops: &[Op], pred: fn(&str) -> bool, cname: &str) -> bool {
 }
 
 /// The handle ownership rule, applied before a spawn of body `child` by the op at `pc`.
-fn transfer_handles(c: &Ctx, st: &mut TaskSt, pc: usize, child: usize) -> Handles {
+pub(crate) fn transfer_handles(c: &Ctx, st: &mut TaskSt, pc: usize, child: usize) -> Handles {
     let prog = &c.prog;
     let mut h = Handles::empty(prog.objs.len());
     let child_ops = &prog.tasks[child].ops;
@@ -558,7 +589,7 @@ fn transfer_handles(c: &Ctx, st: &mut TaskSt, pc: usize, child: usize) -> Handle
     h
 }
 
-fn exec_op<'scope, 'env>(
+pub(crate) fn exec_op<'scope, 'env>(
     ctx: &Arc<Ss<Ctx>>,
     st: &mut TaskSt,
     op: &Op,
@@ -1045,6 +1076,17 @@ fn exec_op<'scope, 'env>(
                 _ => panic!("vh: not a wlazy"),
             }
         }
-        other => panic!("vh: unknown op {other} (task {})", st.k),
+        other if crate::tokio::is_op(other) => crate::tokio::exec(
+            &|n: &str| match c.prog.obj_index(n).map(|i| &c.objs[i]) {
+                Some(Obj::Tokio(t)) => Some(&**t),
+                _ => None,
+            },
+            st.k,
+            op,
+        ),
+        other => match crate::fut::exec_fut_op(ctx, st, op, pc) {
+            Some(r) => r,
+            None => panic!("vh: unknown op {other} (task {})", st.k),
+        },
     }
 }
